@@ -766,6 +766,15 @@ def cmp_setfl(c, plan, text, kind, cases_index):
             c.fail("metadata", "element %s atomic number %s, expected %d (%s)" % (name, h[0], z, ctx.meta))
         c.num("metadata", h[1], mass, what="mass of %s (%s)" % (name, ctx.meta))
         c.num("metadata", h[2], lc, what="lattice constant of %s (%s)" % (name, ctx.meta))
+        # the file GIVES the mass and the lattice constant: the printed number determines them (nine significant digits at
+        # least), it is not just consistent with them at whatever precision it happens to be printed
+        for tok, exact, what in ((h[1], mass, "mass"), (h[2], lc, "lattice constant")):
+            try:
+                printed = F(tok) if ("e" not in tok.lower() and "d" not in tok.lower()) else F(float(tok.lower().replace("d", "e")))
+                if abs(printed - exact) > F(1, 10 ** 9) * max(abs(exact), 1):
+                    c.fail("metadata", "%s of %s printed as %s, the model says %s (= %.10f): digits are lost" % (what, name, tok, exact, float(exact)))
+            except (ValueError, ZeroDivisionError):
+                pass
         if h[3] != lt:
             c.fail("metadata", "element %s lattice type %s, expected %s (%s)" % (name, h[3], lt, ctx.meta))
         c.cells_of("embed", f["els"][e]["embed"], emb, "embedding function of %s" % name)
